@@ -39,6 +39,8 @@ func runC14(c *Ctx, r *Report) {
 	c14Headers(c, r, "C14.R11")
 	c14NotProvision(c, r, "C14.R12")
 	c14NoDroppedEntry(c, r, "C14.R13")
+	c14Replay(c, r, "C14.R14")
+	c14DNSRule(c, r, "C14.R15")
 }
 
 // fieldAccesses returns for every function the struct fields it loads and stores.
